@@ -8,7 +8,7 @@ d = os.path.join(os.path.dirname(os.path.dirname(os.path.abspath(__file__))), "s
 log = open(os.path.join(d, "confirm.log")).read()
 res = re.findall(r"^RESULT .*$", log, re.M)
 meta = {
- "property": prop, "round": 3 if name.endswith("-r3") else (2 if name.endswith("-r2") else 1),
+ "property": prop, "round": 4 if name.endswith("-r4") else (3 if name.endswith("-r3") else (2 if name.endswith("-r2") else 1)),
  "breaks": breaks, "needs_to_manifest": needs, "change": change,
  "confirmed": {"how": "lib/seed_confirm.sh in a scratch worktree of /repo HEAD: patch applies and builds; the demonstration passes without the change and fails with it; the existing tests of the touched packages pass with it",
                "result": res[-1] if res else "?", "log": "confirm.log"},
